@@ -156,3 +156,99 @@ def bidi_arg_sets():
             edges = [CircuitEdge(logical_signal_id="s", resolved_signal_name="s", source_entity_id=s, sink_entity_id=t) for (s, t) in combo]
             out.append({"self": object.__new__(ConnectionPlanner), "edges": edges})
     return out
+
+
+# =================================================================================================
+# ConnectionPlanner._route_connection_with_relays: the relay network is asked to route THIS edge — with the network id
+# recorded for (source entity, sink entity, RESOLVED signal name) (the key _compute_network_ids stores under), the edge's
+# resolved signal and the given colour, between the two placements' positions — and the relay chain is created for the
+# same endpoints, signal and colour.  A wrong key silently yields id 0 ("shares with anything"), which lets two unrelated
+# producers share relay poles.  Unbounded (pyvc; loop-free).
+# =================================================================================================
+import z3  # noqa: E402
+from pyvc.values import SObj  # noqa: E402
+from spec.ops import And  # noqa: E402
+
+CPQ = "dsl_compiler/src/layout/connection_planner.py::ConnectionPlanner."
+_OPQ = ty.TOpaque("x")
+NID_CALLS, ROUTE_CALLS, CHAIN_CALLS, PLACEMENTS = [], [], [], {}
+_PLACEMENT = ty.TOpt(ty.TObj("EntityPlacement", only=("EntityPlacement",), ftypes=(("position", ty.TOpt(ty.TObj("Pos", only=("Pos",)))),)))
+
+
+def _get_placement(ex, a):
+    key = a.args[0]
+    from pyvc.ghost import ghost
+    holder = ex.args_ns.edge
+    which = "src" if key is holder.source_entity_id else "dst"
+    return ghost(holder, "placement_" + which, _PLACEMENT)
+
+
+def _nid(ex, a):
+    NID_CALLS.append((a.source_entity_id, a.sink_entity_id, a.signal_name))
+    return z3.Int("network_id_of_key")
+
+
+def _route(ex, a):
+    ROUTE_CALLS.append(tuple(a.args))
+    from pyvc.ghost import ghost
+    return ghost(ex.args_ns.edge, "relay_path", ty.TOpt(ty.TObj("RelayPath", only=("RelayPath",))))
+
+
+def _chain(ex, a):
+    CHAIN_CALLS.append((a.source_id, a.sink_id, a.signal_name, a.wire_color, a.relay_path, a.source_side, a.sink_side))
+    return None
+
+
+get_placement = Contract(qualname="dsl_compiler/src/layout/layout_plan.py::LayoutPlan.get_placement", params={"args": _OPQ}, effect=_get_placement,
+                         verify=False, note="dictionary lookup of the placement (None when absent)")
+nid_for_edge = Contract(qualname=CPQ + "get_network_id_for_edge", params={"self": _OPQ, "source_entity_id": _OPQ, "sink_entity_id": _OPQ, "signal_name": _OPQ},
+                        effect=_nid, verify=False, note="dictionary lookup under (source, sink, signal name) — the key written by _compute_network_ids (network-ids-box)")
+route_signal = Contract(qualname="dsl_compiler/src/layout/connection_planner.py::RelayNetwork.route_signal", params={"args": _OPQ}, effect=_route, verify=False,
+                        note="relay path search (contracted separately: C08 relay isolation)")
+create_chain = Contract(qualname=CPQ + "_create_relay_chain", params={"self": _OPQ, "source_id": _OPQ, "sink_id": _OPQ, "signal_name": _OPQ, "wire_color": _OPQ, "relay_path": _OPQ,
+                                                                  "source_side": _OPQ, "sink_side": _OPQ}, effect=_chain, verify=False, note="emits the wire chain along the path (recorded)")
+
+
+def _route_reset(a):
+    NID_CALLS.clear(), ROUTE_CALLS.clear(), CHAIN_CALLS.clear()
+    return True
+
+
+def _route_post(a, res):
+    e = a.edge
+    if e.source_entity_id is None:
+        return res is True and not ROUTE_CALLS and not CHAIN_CALLS
+    src, dst = e._fields.get("@placement_src"), e._fields.get("@placement_dst")
+    if src is None or dst is None or src.position is None or dst.position is None:
+        return res is True and not ROUTE_CALLS and not CHAIN_CALLS
+    if len(ROUTE_CALLS) != 1 or len(NID_CALLS) != 1:
+        return False
+    k, r = NID_CALLS[0], ROUTE_CALLS[0]
+    cs = [k[0] is e.source_entity_id, k[1] is e.sink_entity_id, k[2] is e.resolved_signal_name,
+          len(r) == 5 and r[0] is src.position and r[1] is dst.position and r[2] is e.resolved_signal_name and r[3] is a.wire_color,
+          isinstance(r[4], z3.ExprRef) and z3.eq(r[4], z3.Int("network_id_of_key"))]
+    path = e._fields.get("@relay_path")
+    if path is None:
+        cs += [res is False, not CHAIN_CALLS]
+    else:
+        cs += [res is True, len(CHAIN_CALLS) == 1]
+        if CHAIN_CALLS:
+            c = CHAIN_CALLS[0]
+            cs += [c[0] is e.source_entity_id, c[1] is e.sink_entity_id, c[2] is e.resolved_signal_name, c[3] is a.wire_color, c[4] is path,
+                   c[5] is a.source_side, c[6] is a.sink_side]
+    return all(cs)
+
+
+route_relays = Contract(
+    qualname=CPQ + "_route_connection_with_relays",
+    params={"self": ty.TObj("ConnectionPlanner", only=("ConnectionPlanner",)),
+            "edge": ty.TObj("CircuitEdge", only=("CircuitEdge",), ftypes=(("source_entity_id", ty.TOpt(ty.Str)), ("sink_entity_id", ty.Str), ("resolved_signal_name", ty.Str),
+                                                                           ("logical_signal_id", ty.Str))),
+            "wire_color": ty.Str, "source_side": ty.TOpt(ty.Str), "sink_side": ty.TOpt(ty.Str)},
+    requires=[("(reset capture)", _route_reset)],
+    ensures=[("routed under the network id of (source, sink, resolved signal), with the edge's signal, colour and endpoints", _route_post)],
+    uses={"opaque.get_placement": get_placement, "ConnectionPlanner.get_network_id_for_edge": nid_for_edge,
+          "opaque.route_signal": route_signal, "ConnectionPlanner._create_relay_chain": create_chain, "opaque.info": "skip", "opaque.warning": "skip"},
+    dynamic_types={"self": {"layout_plan": ty.TOpaque("plan"), "relay_network": ty.TOpaque("relays"), "diagnostics": ty.TOpaque("diag")}},
+    properties=("C12", "C08"), min_obligations=3, no_replay=True)
+CONTRACTS += [route_relays, get_placement, nid_for_edge, route_signal, create_chain]
